@@ -154,6 +154,8 @@ func Forany[T any](pred func(T) bool, s []T) bool {
 }
 
 func PushLast[T any](elem T, s []T) []T {
+	// never append into spare capacity: it may belong to another slice value
+	s = s[:len(s):len(s)]
 	return append(s, elem)
 }
 
